@@ -1,2 +1,2020 @@
+// Engine `csg` -- property C10: CSG logic rewriting and encoding preserve the region's
+// boolean function.
+//
+// Real code driven: orangeinp::CsgTree (insert / exchange / simplify), orangeinp::simplify,
+// simplify_up, replace_and_simplify, transform_negated_joins (DeMorganSimplifier),
+// calc_surfaces, build_infix_string (InfixStringBuilder), oid::PostfixLogicBuilder (with
+// and without surface remapping), detail::InternalSurfaceFlagger, detail::SenseEvaluator,
+// and the run-time evaluators rt::LogicEvaluator / LogicStack /
+// InfixEvaluator, plus OrangeParams' refusal of logic deeper than the logic stack.
+//
+// Oracle: a truth-table model.  Every generated expression is built twice: in the real
+// CsgTree and in a harness-side model whose value is a bit vector over ALL 2^n sense
+// assignments (n <= 12; 4096 sampled assignments for larger n).  The meaning of the
+// "original" is what the model says the inserted expression means (never what the tree
+// stores).  Rewritten trees are evaluated by an own recursive evaluator of the Node variant
+// types; logic vectors by the real LogicEvaluator AND by an own bit-parallel postfix
+// interpreter (to attribute a mismatch to builder or evaluator).
+#include <algorithm>
+#include <array>
+#include <cctype>
+#include <cstdint>
+#include <functional>
+#include <sstream>
+#include <string>
+#include <utility>
+#include <variant>
+#include <vector>
+
+#include "corecel/Assert.hh"
+#include "corecel/cont/Span.hh"
+#include "orange/OrangeInput.hh"
+#include "orange/OrangeParams.hh"
+#include "orange/OrangeTypes.hh"
+#include "orange/orangeinp/CsgTree.hh"
+#include "orange/orangeinp/CsgTreeUtils.hh"
+#include "orange/orangeinp/CsgTypes.hh"
+#include "orange/orangeinp/detail/InternalSurfaceFlagger.hh"
+#include "orange/orangeinp/detail/PostfixLogicBuilder.hh"
+#include "orange/orangeinp/detail/SenseEvaluator.hh"
+#include "orange/surf/PlaneAligned.hh"
+#include "orange/surf/VariantSurface.hh"
+#include "orange/univ/detail/InfixEvaluator.hh"
+#include "orange/univ/detail/LogicEvaluator.hh"
+#include "orange/univ/detail/LogicStack.hh"
+
+#include "verif_celer.hh"
 #include "verif_common.hh"
-int main(){return 0;}
+
+using namespace celeritas;
+using namespace celeritas::orangeinp;
+using verif::json;
+using u64 = std::uint64_t;
+namespace oid = celeritas::orangeinp::detail;
+namespace rt = celeritas::detail;
+
+namespace
+{
+//---------------------------------------------------------------------------//
+// Truth tables: one bit per sense assignment.  NW words are live (set per case).
+constexpr int MAXW = 64;  // 4096 assignments
+int NW = 1;
+
+struct TT
+{
+    u64 w[MAXW];
+};
+
+inline TT tt_fill(bool b)
+{
+    TT r;
+    for (int i = 0; i < NW; ++i)
+        r.w[i] = b ? ~u64(0) : u64(0);
+    return r;
+}
+inline TT tt_not(TT const& a)
+{
+    TT r;
+    for (int i = 0; i < NW; ++i)
+        r.w[i] = ~a.w[i];
+    return r;
+}
+inline void tt_and_eq(TT& a, TT const& b)
+{
+    for (int i = 0; i < NW; ++i)
+        a.w[i] &= b.w[i];
+}
+inline void tt_or_eq(TT& a, TT const& b)
+{
+    for (int i = 0; i < NW; ++i)
+        a.w[i] |= b.w[i];
+}
+inline bool tt_eq(TT const& a, TT const& b)
+{
+    for (int i = 0; i < NW; ++i)
+        if (a.w[i] != b.w[i])
+            return false;
+    return true;
+}
+inline bool tt_any(TT const& a)
+{
+    for (int i = 0; i < NW; ++i)
+        if (a.w[i])
+            return true;
+    return false;
+}
+inline bool tt_all(TT const& a)
+{
+    for (int i = 0; i < NW; ++i)
+        if (~a.w[i])
+            return false;
+    return true;
+}
+inline bool tt_bit(TT const& a, int j)
+{
+    return (a.w[j >> 6] >> (j & 63)) & 1u;
+}
+// first assignment index where a and b differ inside mask, or -1
+inline int tt_first_diff(TT const& a, TT const& b, TT const& mask)
+{
+    for (int i = 0; i < NW; ++i)
+    {
+        u64 d = (a.w[i] ^ b.w[i]) & mask.w[i];
+        if (d)
+            return i * 64 + __builtin_ctzll(d);
+    }
+    return -1;
+}
+inline int tt_first_set(TT const& a)
+{
+    for (int i = 0; i < NW; ++i)
+        if (a.w[i])
+            return i * 64 + __builtin_ctzll(a.w[i]);
+    return -1;
+}
+
+//---------------------------------------------------------------------------//
+// The set of sense assignments of one case
+struct Assign
+{
+    int n = 0;
+    bool exhaustive = true;
+    int A = 64;
+    std::vector<unsigned> sid;  // local index -> surface id
+    std::vector<TT> col;  // local index -> value of the surface under each assignment
+
+    int index_of(unsigned s) const
+    {
+        for (int i = 0; i < n; ++i)
+            if (sid[i] == s)
+                return i;
+        return -1;
+    }
+    json describe(int j) const
+    {
+        json o = json::object();
+        for (int i = 0; i < n; ++i)
+            o[std::to_string(sid[i])] = tt_bit(col[i], j) ? "+" : "-";
+        return o;
+    }
+};
+
+void make_assign(Assign& as, std::vector<unsigned> const& sids, verif::Rng& rng)
+{
+    as.n = int(sids.size());
+    as.sid = sids;
+    as.col.assign(as.n, TT{});
+    if (as.n <= 12)
+    {
+        as.exhaustive = true;
+        as.A = std::max(64, 1 << as.n);
+        NW = as.A / 64;
+        static u64 const pat[6] = {0xAAAAAAAAAAAAAAAAull, 0xCCCCCCCCCCCCCCCCull,
+                                   0xF0F0F0F0F0F0F0F0ull, 0xFF00FF00FF00FF00ull,
+                                   0xFFFF0000FFFF0000ull, 0xFFFFFFFF00000000ull};
+        for (int i = 0; i < as.n; ++i)
+            for (int w = 0; w < NW; ++w)
+                as.col[i].w[w] = i < 6 ? pat[i] : (((w >> (i - 6)) & 1) ? ~u64(0) : u64(0));
+    }
+    else
+    {
+        as.exhaustive = false;
+        as.A = 4096;
+        NW = 64;
+        for (int i = 0; i < as.n; ++i)
+        {
+            for (int w = 0; w < NW; ++w)
+                as.col[i].w[w] = rng.u64();
+            // assignment 0: all inside, assignment 1: all outside
+            as.col[i].w[0] = (as.col[i].w[0] & ~u64(3)) | u64(2);
+        }
+    }
+}
+
+//---------------------------------------------------------------------------//
+char const* kind_of(Node const& n)
+{
+    static char const* const names[] = {"true", "false", "alias", "not", "surf", "join"};
+    if (auto* j = std::get_if<Joined>(&n))
+        return j->op == op_and ? "and" : (j->op == op_or ? "or" : "join?");
+    return names[n.index()];
+}
+
+std::string tree_str(CsgTree const& t)
+{
+    std::ostringstream os;
+    os << t;
+    os << " volumes=[";
+    for (auto v : t.volumes())
+        os << v.unchecked_get() << ' ';
+    os << ']';
+    return os.str();
+}
+
+//---------------------------------------------------------------------------//
+// Own recursive evaluator of the Node variants over all assignments at once.
+struct TreeEval
+{
+    CsgTree const& t;
+    Assign const& as;
+    int flip = -1;  // local surface index whose sense is flipped (-1: none)
+    std::vector<TT> memo;
+    std::vector<unsigned char> st;
+    bool cycle = false;
+    bool bad_ref = false;
+    bool unknown_surface = false;
+
+    TreeEval(CsgTree const& tree, Assign const& a, int flip_index = -1)
+        : t(tree), as(a), flip(flip_index), memo(tree.size()), st(tree.size(), 0)
+    {
+    }
+
+    bool broken() const { return cycle || bad_ref || unknown_surface; }
+    char const* why() const
+    {
+        return cycle ? "cycle" : bad_ref ? "dangling-node-id" : "unknown-surface";
+    }
+
+    TT const& operator()(NodeId nid)
+    {
+        static TT zero{};
+        if (!nid || nid.unchecked_get() >= t.size())
+        {
+            bad_ref = true;
+            return zero;
+        }
+        auto i = nid.unchecked_get();
+        if (st[i] == 2)
+            return memo[i];
+        if (st[i] == 1)
+        {
+            cycle = true;
+            return zero;
+        }
+        st[i] = 1;
+        Node const& node = t[nid];
+        TT r;
+        if (std::holds_alternative<True>(node))
+            r = tt_fill(true);
+        else if (std::holds_alternative<False>(node))
+            r = tt_fill(false);
+        else if (auto* a = std::get_if<Aliased>(&node))
+            r = (*this)(a->node);
+        else if (auto* ng = std::get_if<Negated>(&node))
+            r = tt_not((*this)(ng->node));
+        else if (auto* s = std::get_if<Surface>(&node))
+        {
+            int k = s->id ? as.index_of(s->id.unchecked_get()) : -1;
+            if (k < 0)
+            {
+                unknown_surface = true;
+                r = tt_fill(false);
+            }
+            else
+                r = (k == flip) ? tt_not(as.col[k]) : as.col[k];
+        }
+        else
+        {
+            auto const& j = std::get<Joined>(node);
+            bool is_and = (j.op == op_and);
+            r = tt_fill(is_and);
+            for (NodeId d : j.nodes)
+            {
+                TT const& c = (*this)(d);
+                if (is_and)
+                    tt_and_eq(r, c);
+                else
+                    tt_or_eq(r, c);
+            }
+        }
+        memo[i] = r;
+        st[i] = 2;
+        return memo[i];
+    }
+};
+
+//---------------------------------------------------------------------------//
+// Case definition (replayable from workload + seed + index)
+struct Step
+{
+    char kind = 'S';  // 'T','F' (predefined 0,1), 'S' surface, 'N' not, 'A' and, 'O' or
+    unsigned sid = 0;
+    std::vector<int> args;  // indices of earlier steps
+};
+
+struct CaseDef
+{
+    std::string workload;
+    u64 seed = 0, index = 0;
+    std::vector<unsigned> sids;
+    std::vector<Step> steps;
+    std::vector<int> volumes;
+    bool feat_dup = false, feat_compl = false;
+    u64 plan_seed = 0;
+    bool all_replacements = false;
+    std::string tier = "quick";
+};
+
+json steps_json(CaseDef const& cd)
+{
+    json a = json::array();
+    for (std::size_t i = 0; i < cd.steps.size(); ++i)
+    {
+        auto const& s = cd.steps[i];
+        json e = json::array();
+        e.push_back(std::string(1, s.kind));
+        if (s.kind == 'S')
+            e.push_back(s.sid);
+        for (int x : s.args)
+            e.push_back(x);
+        a.push_back(std::move(e));
+    }
+    return a;
+}
+
+std::string logic_str(std::vector<logic_int> const& l)
+{
+    std::ostringstream os;
+    for (auto v : l)
+    {
+        if (logic::is_operator_token(v))
+            os << logic::to_char(static_cast<logic::OperatorToken>(v));
+        else
+            os << v;
+        os << ' ';
+    }
+    return os.str();
+}
+
+int depth_bucket(int d)
+{
+    return d <= 2 ? d : d <= 4 ? 3 : d <= 8 ? 5 : d <= 16 ? 9 : 17;
+}
+
+//---------------------------------------------------------------------------//
+// Parser/evaluator for InfixStringBuilder output:
+//   expr := 'T' | 'F' | ('+'|'-') digits | '!' expr | ('all'|'any') '(' expr {', ' expr} ')'
+struct InfixStringParser
+{
+    std::string const& s;
+    Assign const& as;
+    std::size_t p = 0;
+    bool ok = true;
+
+    TT expr()
+    {
+        if (p >= s.size())
+        {
+            ok = false;
+            return tt_fill(false);
+        }
+        char c = s[p];
+        if (c == 'T' || c == 'F')
+        {
+            ++p;
+            return tt_fill(c == 'T');
+        }
+        if (c == '!')
+        {
+            ++p;
+            return tt_not(expr());
+        }
+        if (c == '+' || c == '-')
+        {
+            ++p;
+            if (p >= s.size() || !isdigit((unsigned char)s[p]))
+            {
+                ok = false;
+                return tt_fill(false);
+            }
+            unsigned long v = 0;
+            while (p < s.size() && isdigit((unsigned char)s[p]))
+                v = v * 10 + (s[p++] - '0');
+            int k = as.index_of(unsigned(v));
+            if (k < 0)
+            {
+                ok = false;
+                return tt_fill(false);
+            }
+            // '+' is Sense::outside == true (positive side of the surface)
+            return c == '+' ? as.col[k] : tt_not(as.col[k]);
+        }
+        bool is_and;
+        if (s.compare(p, 4, "all(") == 0)
+            is_and = true;
+        else if (s.compare(p, 4, "any(") == 0)
+            is_and = false;
+        else
+        {
+            ok = false;
+            return tt_fill(false);
+        }
+        p += 4;
+        TT r = expr();
+        while (ok && s.compare(p, 2, ", ") == 0)
+        {
+            p += 2;
+            TT c2 = expr();
+            if (is_and)
+                tt_and_eq(r, c2);
+            else
+                tt_or_eq(r, c2);
+        }
+        if (!ok || p >= s.size() || s[p] != ')')
+        {
+            ok = false;
+            return r;
+        }
+        ++p;
+        return r;
+    }
+};
+
+//---------------------------------------------------------------------------//
+// Own bit-parallel interpreter of a postfix logic vector
+struct PostfixResult
+{
+    bool well_formed = true;
+    char const* problem = "";
+    int max_depth = 0;
+    TT value;
+};
+
+PostfixResult
+interpret_postfix(std::vector<logic_int> const& lgc, std::vector<TT const*> const& face_col)
+{
+    PostfixResult r;
+    std::vector<TT> stack;
+    auto bad = [&](char const* why) {
+        r.well_formed = false;
+        r.problem = why;
+        return r;
+    };
+    if (lgc.empty())
+        return bad("empty-logic");
+    for (logic_int v : lgc)
+    {
+        if (!logic::is_operator_token(v))
+        {
+            if (v >= face_col.size())
+                return bad("face-index-out-of-range");
+            stack.push_back(*face_col[v]);
+        }
+        else if (v == logic::ltrue)
+            stack.push_back(tt_fill(true));
+        else if (v == logic::lnot)
+        {
+            if (stack.empty())
+                return bad("stack-underflow");
+            stack.back() = tt_not(stack.back());
+        }
+        else if (v == logic::land || v == logic::lor)
+        {
+            if (stack.size() < 2)
+                return bad("stack-underflow");
+            TT b = stack.back();
+            stack.pop_back();
+            if (v == logic::land)
+                tt_and_eq(stack.back(), b);
+            else
+                tt_or_eq(stack.back(), b);
+        }
+        else
+            return bad("non-postfix-token");
+        r.max_depth = std::max<int>(r.max_depth, int(stack.size()));
+    }
+    if (stack.size() != 1)
+        return bad("unbalanced");
+    r.value = stack.back();
+    return r;
+}
+
+//---------------------------------------------------------------------------//
+// Harness translation of a (negation-pushed) tree node into the explicit infix token
+// encoding documented in InfixEvaluator.hh: parenthesised groups of one operator, `lnot`
+// only directly in front of a face.  Returns false if the node is not representable.
+struct InfixTokens
+{
+    CsgTree const& t;
+    std::vector<LocalSurfaceId> const& faces;  // sorted
+    std::vector<logic_int> out;
+
+    NodeId dealias(NodeId n) const
+    {
+        int guard = 0;
+        while (auto* a = std::get_if<Aliased>(&t[n]))
+        {
+            n = a->node;
+            if (++guard > 1000)
+                break;
+        }
+        return n;
+    }
+    bool face(Surface const& s)
+    {
+        auto it = std::lower_bound(faces.begin(), faces.end(), s.id);
+        if (it == faces.end() || *it != s.id)
+            return false;
+        out.push_back(logic_int(it - faces.begin()));
+        return true;
+    }
+    bool emit(NodeId n, bool root, bool paren_root)
+    {
+        Node const& node = t[dealias(n)];
+        if (auto* s = std::get_if<Surface>(&node))
+            return face(*s);
+        if (std::holds_alternative<True>(node))
+        {
+            if (!root)
+                return false;
+            out.push_back(logic::ltrue);
+            return true;
+        }
+        if (auto* ng = std::get_if<Negated>(&node))
+        {
+            auto* s = std::get_if<Surface>(&t[dealias(ng->node)]);
+            if (!s)
+                return false;
+            out.push_back(logic::lnot);
+            return face(*s);
+        }
+        if (auto* j = std::get_if<Joined>(&node))
+        {
+            if (j->nodes.size() < 2)
+                return false;
+            bool paren = !root || paren_root;
+            if (paren)
+                out.push_back(logic::lopen);
+            bool first = true;
+            for (NodeId d : j->nodes)
+            {
+                if (!first)
+                    out.push_back(j->op);
+                first = false;
+                if (!emit(d, false, false))
+                    return false;
+            }
+            if (paren)
+                out.push_back(logic::lclose);
+            return true;
+        }
+        return false;
+    }
+};
+
+//---------------------------------------------------------------------------//
+struct Runner
+{
+    verif::Report& rep;
+    CaseDef const& cd;
+    verif::Rng plan;
+
+    CsgTree tree;
+    Assign as;
+    std::vector<NodeId> id;  // per step
+    std::vector<TT> tt;  // per step: model value
+    std::vector<int> depth;  // per step
+    std::vector<TT> orig;  // per raw node id: model value
+    std::vector<unsigned> sids_sorted;
+    TT all_mask;
+
+    bool feat_shared = false;
+    std::string root_kind = "?";
+    int root_depth = 0;
+    bool trivial_case = false;
+    bool stop = false;  // a violation / abort ended the case
+    std::string context;  // how the tree being encoded was produced (for witnesses)
+    json history = json::array();  // exchanges / simplifications applied to the working copy
+
+    Runner(verif::Report& r, CaseDef const& c) : rep(r), cd(c), plan(c.plan_seed) {}
+
+    //-----------------------------------------------------------------------//
+    json witness(json extra = json::object()) const
+    {
+        json w;
+        w["workload"] = cd.workload;
+        w["tier"] = cd.tier;
+        w["seed"] = cd.seed;
+        w["index"] = cd.index;
+        w["surface_ids"] = cd.sids;
+        w["steps"] = steps_json(cd);
+        w["volume_steps"] = cd.volumes;
+        w["exhaustive_assignments"] = as.exhaustive;
+        for (auto it = extra.begin(); it != extra.end(); ++it)
+            w[it.key()] = it.value();
+        return w;
+    }
+
+    std::string cell(std::string const& stage) const
+    {
+        return stage + "/root=" + root_kind + "/dup" + (cd.feat_dup ? "1" : "0") + "compl"
+               + (cd.feat_compl ? "1" : "0") + "shared" + (feat_shared ? "1" : "0") + "/D"
+               + std::to_string(depth_bucket(root_depth));
+    }
+
+    void fail(std::string const& key, std::string const& detail, json extra)
+    {
+        rep.violation(key, detail, witness(std::move(extra)));
+        stop = true;
+    }
+
+    void done(std::string const& stage, bool nontrivial = true)
+    {
+        if (trivial_case || !nontrivial)
+            rep.held_trivial();
+        else
+            rep.held(cell(stage));
+    }
+
+    // Run f; classify library exceptions per the engine guide.  true = completed.
+    template<class F>
+    bool guarded(std::string const& stage, F&& f, bool* rejected = nullptr)
+    {
+        try
+        {
+            f();
+            return true;
+        }
+        catch (DebugError const& e)
+        {
+            if (verif::is_bounds_assertion(e))
+                rep.violation(verif::bounds_key("C10", e), verif::describe(e),
+                              witness({{"stage", stage}}));
+            else
+            {
+                rep.inconclusive("debug-assert: " + verif::describe(e));
+                rep.observe("assert:" + verif::describe(e));
+            }
+        }
+        catch (RuntimeError const& e)
+        {
+            if (rejected)
+                *rejected = true;
+            rep.inconclusive("rejected input: " + stage);
+        }
+        catch (std::bad_variant_access const&)
+        {
+            rep.violation("C10/exception/" + stage + "/bad_variant_access",
+                          "std::bad_variant_access thrown on an input satisfying the documented "
+                          "preconditions",
+                          witness({{"stage", stage}}));
+        }
+        stop = true;
+        return false;
+    }
+
+    //-----------------------------------------------------------------------//
+    // Build the tree and the model in parallel; check insert-time simplification
+    bool build()
+    {
+        verif::Rng arng(verif::mix_seed(cd.plan_seed, 77));
+        make_assign(as, cd.sids, arng);
+        all_mask = tt_fill(true);
+        sids_sorted = cd.sids;
+        std::sort(sids_sorted.begin(), sids_sorted.end());
+
+        std::size_t ns = cd.steps.size();
+        id.assign(ns, NodeId{});
+        tt.assign(ns, TT{});
+        depth.assign(ns, 0);
+        id[0] = CsgTree::true_node_id();
+        id[1] = CsgTree::false_node_id();
+        tt[0] = tt_fill(true);
+        tt[1] = tt_fill(false);
+
+        bool ok = guarded("insert", [&] {
+            for (std::size_t s = 2; s < ns; ++s)
+            {
+                Step const& st = cd.steps[s];
+                Node node;
+                if (st.kind == 'S')
+                {
+                    node = Surface{LocalSurfaceId{st.sid}};
+                    tt[s] = as.col[as.index_of(st.sid)];
+                }
+                else if (st.kind == 'N')
+                {
+                    node = Negated{id[st.args[0]]};
+                    tt[s] = tt_not(tt[st.args[0]]);
+                    depth[s] = depth[st.args[0]] + 1;
+                }
+                else
+                {
+                    bool is_and = st.kind == 'A';
+                    Joined j{is_and ? op_and : op_or, {}};
+                    tt[s] = tt_fill(is_and);
+                    int d = 0;
+                    for (int a : st.args)
+                    {
+                        j.nodes.push_back(id[a]);
+                        if (is_and)
+                            tt_and_eq(tt[s], tt[a]);
+                        else
+                            tt_or_eq(tt[s], tt[a]);
+                        d = std::max(d, depth[a]);
+                    }
+                    depth[s] = d + 1;
+                    node = std::move(j);
+                }
+                id[s] = tree.insert(std::move(node)).first;
+            }
+            for (int v : cd.volumes)
+                tree.insert_volume(id[v]);
+        });
+        if (!ok)
+            return false;
+
+        // Every returned node must mean what the model says the inserted expression means
+        TreeEval ev(tree, as);
+        for (std::size_t s = 0; s < ns; ++s)
+        {
+            TT const& got = ev(id[s]);
+            if (ev.broken())
+            {
+                fail(std::string("C10/insert/") + ev.why(),
+                     "tree returned by insert() is not evaluable",
+                     {{"step", s}, {"tree", tree_str(tree)}});
+                return false;
+            }
+            int j = tt_first_diff(got, tt[s], all_mask);
+            if (j >= 0)
+            {
+                char const* k = cd.steps[s].kind == 'S'   ? "surface"
+                                : cd.steps[s].kind == 'N' ? "negated"
+                                : cd.steps[s].kind == 'A' ? "joined-and"
+                                : cd.steps[s].kind == 'O' ? "joined-or"
+                                                          : "constant";
+                fail(std::string("C10/insert/") + k,
+                     "node returned by CsgTree::insert differs from the inserted expression",
+                     {{"step", s}, {"node", id[s].unchecked_get()}, {"assignment", as.describe(j)},
+                      {"expected", tt_bit(tt[s], j)}, {"tree_value", tt_bit(got, j)},
+                      {"tree", tree_str(tree)}});
+                return false;
+            }
+        }
+        orig.resize(tree.size());
+        for (std::size_t i = 0; i < tree.size(); ++i)
+            orig[i] = ev(NodeId(i));
+
+        // features of the first volume root
+        int v0 = cd.volumes.front();
+        root_kind = kind_of(tree[id[v0]]);
+        if (id[v0] == CsgTree::false_node_id())
+            root_kind = "false";
+        root_depth = depth[v0];
+        trivial_case = true;
+        for (int v : cd.volumes)
+        {
+            Node const& n = tree[id[v]];
+            if (std::holds_alternative<Joined>(n)
+                || (std::holds_alternative<Negated>(n) && id[v] != CsgTree::false_node_id()))
+                trivial_case = false;
+        }
+        // shared: a non-leaf node with two or more parents
+        std::vector<int> parents(tree.size(), 0);
+        for (std::size_t i = 2; i < tree.size(); ++i)
+        {
+            Node const& n = tree[NodeId(i)];
+            if (auto* ng = std::get_if<Negated>(&n))
+                ++parents[ng->node.unchecked_get()];
+            else if (auto* j = std::get_if<Joined>(&n))
+                for (auto d : j->nodes)
+                    ++parents[d.unchecked_get()];
+        }
+        for (std::size_t i = 2; i < tree.size(); ++i)
+            if (parents[i] >= 2 && !std::holds_alternative<Surface>(tree[NodeId(i)]))
+                feat_shared = true;
+        return true;
+    }
+
+    //-----------------------------------------------------------------------//
+    // All node ids of `t` (same ids as the raw tree) keep their value inside `mask`
+    bool check_nodes(CsgTree const& t, TT const& mask, std::string const& key,
+                     std::string const& what, json extra)
+    {
+        extra["history"] = history;
+        if (t.size() != orig.size())
+        {
+            extra["tree"] = tree_str(t);
+            fail("C10/rewrite/node-count", what + ": number of nodes changed", extra);
+            return false;
+        }
+        TreeEval ev(t, as);
+        for (std::size_t i = 0; i < t.size(); ++i)
+        {
+            TT const& got = ev(NodeId(i));
+            if (ev.broken())
+            {
+                extra["tree"] = tree_str(t);
+                extra["raw_tree"] = tree_str(tree);
+                extra["node"] = i;
+                fail(std::string("C10/rewrite/") + ev.why(),
+                     what + ": rewritten tree is not evaluable", extra);
+                return false;
+            }
+            int j = tt_first_diff(got, orig[i], mask);
+            if (j >= 0)
+            {
+                extra["tree"] = tree_str(t);
+                extra["raw_tree"] = tree_str(tree);
+                extra["node"] = i;
+                extra["is_volume"]
+                    = std::find(t.volumes().begin(), t.volumes().end(), NodeId(i))
+                      != t.volumes().end();
+                extra["assignment"] = as.describe(j);
+                extra["original_value"] = tt_bit(orig[i], j);
+                extra["rewritten_value"] = tt_bit(got, j);
+                fail(key, what + ": value of a node changed", extra);
+                return false;
+            }
+        }
+        if (t.volumes() != tree.volumes())
+        {
+            fail("C10/rewrite/volumes", what + ": volume list changed", extra);
+            return false;
+        }
+        return true;
+    }
+
+    //-----------------------------------------------------------------------//
+    // Encodings of the given targets (node of `t`, expected value) inside `mask`
+    using Target = std::pair<NodeId, TT>;
+
+    bool check_encodings(CsgTree const& t, std::string const& stage,
+                         std::vector<Target> const& targets, TT const& mask)
+    {
+        TreeEval ev(t, as);
+        oid::InternalSurfaceFlagger flagger(t);
+        std::vector<LocalSurfaceId> existing;
+        bool ok = guarded(stage + "/calc_surfaces", [&] { existing = calc_surfaces(t); });
+        if (!ok)
+            return false;
+        if (!std::is_sorted(existing.begin(), existing.end())
+            || std::adjacent_find(existing.begin(), existing.end()) != existing.end())
+        {
+            fail("C10/calc-surfaces/not-sorted-unique", "calc_surfaces result not sorted/unique",
+                 {{"stage", stage}, {"tree", tree_str(t)}});
+            return false;
+        }
+        std::vector<LocalSurfaceId> all_ids;
+        for (unsigned s : sids_sorted)
+            all_ids.push_back(LocalSurfaceId{s});
+
+        for (Target const& tg : targets)
+        {
+            NodeId node = tg.first;
+            TT const& expect = tg.second;
+            json base = {{"stage", stage}, {"node", node.unchecked_get()}, {"tree", tree_str(t)}};
+
+            TT const tree_value = ev(node);
+            if (ev.broken())
+            {
+                fail("C10/encode/" + std::string(ev.why()), "tree not evaluable", base);
+                return false;
+            }
+
+            //---- postfix: no remap, remap with calc_surfaces, remap with all original ids
+            std::vector<LocalSurfaceId> faces_nomap;
+            for (int mode = 0; mode < 3; ++mode)
+            {
+                char const* mname = mode == 0 ? "nomap" : "remap";
+                std::vector<LocalSurfaceId> const* mapping
+                    = mode == 0 ? nullptr : mode == 1 ? &existing : &all_ids;
+                if (mode == 2 && existing == all_ids)
+                    continue;
+                oid::PostfixLogicBuilder::result_type res;
+                ok = guarded(stage + "/postfix-build", [&] {
+                    if (mapping)
+                        res = oid::PostfixLogicBuilder{t, *mapping}(node);
+                    else
+                        res = oid::PostfixLogicBuilder{t}(node);
+                });
+                if (!ok)
+                    return false;
+                auto const& faces = res.first;
+                auto const& lgc = res.second;
+                json jb = base;
+                jb["mode"] = mname;
+                jb["logic"] = logic_str(lgc);
+                {
+                    json jf = json::array();
+                    for (auto f : faces)
+                        jf.push_back(f.unchecked_get());
+                    jb["faces"] = jf;
+                }
+                // structural invariants: sorted unique faces
+                if (!std::is_sorted(faces.begin(), faces.end())
+                    || std::adjacent_find(faces.begin(), faces.end()) != faces.end())
+                {
+                    fail("C10/postfix-struct/faces-not-sorted-unique",
+                         "face list is not sorted and unique", jb);
+                    return false;
+                }
+                // resolve each face to a surface column
+                std::vector<TT const*> face_col;
+                std::vector<int> face_local;
+                for (auto f : faces)
+                {
+                    long sidv = -1;
+                    if (!mapping)
+                        sidv = f.unchecked_get();
+                    else if (f.unchecked_get() < mapping->size())
+                        sidv = (*mapping)[f.unchecked_get()].unchecked_get();
+                    int k = sidv < 0 ? -1 : as.index_of(unsigned(sidv));
+                    if (k < 0)
+                    {
+                        fail("C10/postfix-struct/unknown-face",
+                             "face does not name a surface of the tree / of the mapping", jb);
+                        return false;
+                    }
+                    face_col.push_back(&as.col[k]);
+                    face_local.push_back(k);
+                }
+                PostfixResult pr = interpret_postfix(lgc, face_col);
+                if (!pr.well_formed)
+                {
+                    fail(std::string("C10/postfix-struct/") + pr.problem,
+                         "logic vector is not a well-formed postfix expression over its faces", jb);
+                    return false;
+                }
+                {
+                    std::vector<char> used(faces.size(), 0);
+                    for (auto v : lgc)
+                        if (!logic::is_operator_token(v))
+                            used[v] = 1;
+                    if (std::find(used.begin(), used.end(), 0) != used.end())
+                    {
+                        fail("C10/postfix-struct/unused-face", "face never referenced by the logic",
+                             jb);
+                        return false;
+                    }
+                }
+                int j = tt_first_diff(pr.value, expect, mask);
+                if (j >= 0)
+                {
+                    jb["assignment"] = as.describe(j);
+                    jb["expected"] = tt_bit(expect, j);
+                    jb["postfix_value"] = tt_bit(pr.value, j);
+                    jb["tree_value"] = tt_bit(tree_value, j);
+                    fail(std::string("C10/postfix-build/") + mname,
+                         "postfix logic (own interpreter) differs from the original function", jb);
+                    return false;
+                }
+                rep.observe_max("max_postfix_depth", pr.max_depth);
+                if (mode == 0)
+                    faces_nomap = faces;
+                if (mode == 2)
+                    continue;  // same token semantics as mode 1
+
+                //---- real run-time evaluator on every assignment
+                if (pr.max_depth > int(rt::LogicStack::max_stack_depth()))
+                {
+                    // LogicStack::push precondition (size != 32) cannot be met; production
+                    // refuses such input in OrangeParams (checked by the depth workload)
+                    rep.observe("postfix:deeper-than-logic-stack");
+                    continue;
+                }
+                int bad_j = -1;
+                bool got_bad = false;
+                ok = guarded(stage + "/logic-eval", [&] {
+                    rt::LogicEvaluator eval(
+                        Span<logic_int const>{lgc.data(), lgc.size()});
+                    std::vector<Sense> senses(faces.size());
+                    for (int a = 0; a < as.A; ++a)
+                    {
+                        for (std::size_t k = 0; k < faces.size(); ++k)
+                            senses[k] = to_sense(tt_bit(*face_col[k], a));
+                        bool got = eval(Span<Sense const>{senses.data(), senses.size()});
+                        if (got != tt_bit(pr.value, a))
+                        {
+                            bad_j = a;
+                            got_bad = got;
+                            break;
+                        }
+                    }
+                });
+                if (!ok)
+                    return false;
+                if (bad_j >= 0)
+                {
+                    jb["assignment"] = as.describe(bad_j);
+                    jb["LogicEvaluator"] = got_bad;
+                    jb["reference_interpreter"] = tt_bit(pr.value, bad_j);
+                    fail("C10/logic-eval/LogicEvaluator",
+                         "LogicEvaluator result differs from a reference postfix interpreter on the "
+                         "same logic vector",
+                         jb);
+                    return false;
+                }
+                rep.observe("assignments_evaluated_postfix", u64(as.A));
+            }
+
+            //---- infix string
+            {
+                std::string str;
+                ok = guarded(stage + "/infix-string", [&] { str = build_infix_string(t, node); });
+                if (!ok)
+                    return false;
+                InfixStringParser ps{str, as};
+                TT v = ps.expr();
+                json jb = base;
+                jb["infix"] = str;
+                if (!ps.ok || ps.p != str.size())
+                {
+                    fail("C10/infix-string/unparseable",
+                         "InfixStringBuilder output does not follow its documented grammar", jb);
+                    return false;
+                }
+                int j = tt_first_diff(v, expect, mask);
+                if (j >= 0)
+                {
+                    jb["assignment"] = as.describe(j);
+                    jb["expected"] = tt_bit(expect, j);
+                    jb["infix_value"] = tt_bit(v, j);
+                    fail("C10/infix-string/InfixStringBuilder",
+                         "infix string differs from the original function", jb);
+                    return false;
+                }
+            }
+
+            //---- simple flag soundness (function of the tree as the run time sees it)
+            {
+                bool internal = true;
+                ok = guarded(stage + "/flagger", [&] { internal = flagger(node); });
+                if (!ok)
+                    return false;
+                rep.observe(internal ? "flag:internal" : "flag:simple");
+                if (!internal)
+                {
+                    for (auto f : faces_nomap)
+                    {
+                        int k = as.index_of(f.unchecked_get());
+                        TreeEval evf(t, as, k);
+                        TT both = evf(node);
+                        tt_and_eq(both, tree_value);
+                        int j = tt_first_set(both);
+                        if (j >= 0)
+                        {
+                            json jb = base;
+                            jb["assignment"] = as.describe(j);
+                            jb["flipped_surface"] = f.unchecked_get();
+                            // site: the flagger looks at tree[negated.node] without
+                            // dereferencing aliases; a negation of an ALIAS of a join is a
+                            // distinct branch from a negation of a join
+                            bool neg_alias_join = reaches_negated_alias_of_join(t, node);
+                            jb["context"] = context;
+                            fail(neg_alias_join
+                                     ? "C10/simple-flag/negated-alias-of-join"
+                                     : "C10/simple-flag/InternalSurfaceFlagger",
+                                 "volume flagged free of internal surfaces stays inside when a "
+                                 "single face sense is flipped (not an intersection of half-spaces)",
+                                 jb);
+                            return false;
+                        }
+                    }
+                    if (tt_any(tree_value) && !faces_nomap.empty())
+                        rep.observe("flag:simple-checked-nonempty");
+                }
+            }
+
+            //---- run-time infix evaluator on a harness translation (where representable)
+            {
+                InfixTokens tk{t, faces_nomap, {}};
+                bool paren_root = plan.coin();
+                if (tk.emit(node, true, paren_root))
+                {
+                    int bad_j = -1;
+                    bool got_bad = false;
+                    std::vector<int> face_local;
+                    for (auto f : faces_nomap)
+                        face_local.push_back(as.index_of(f.unchecked_get()));
+                    ok = guarded(stage + "/infix-eval", [&] {
+                        rt::InfixEvaluator eval(
+                            Span<logic_int const>{tk.out.data(), tk.out.size()});
+                        for (int a = 0; a < as.A; ++a)
+                        {
+                            bool got = eval([&](FaceId fid) {
+                                return tt_bit(as.col[face_local[fid.unchecked_get()]], a);
+                            });
+                            if (got != tt_bit(tree_value, a))
+                            {
+                                bad_j = a;
+                                got_bad = got;
+                                break;
+                            }
+                        }
+                    });
+                    if (!ok)
+                        return false;
+                    if (bad_j >= 0)
+                    {
+                        json jb = base;
+                        jb["assignment"] = as.describe(bad_j);
+                        jb["infix_tokens"] = logic_str(tk.out);
+                        jb["InfixEvaluator"] = got_bad;
+                        jb["tree_value"] = tt_bit(tree_value, bad_j);
+                        fail("C10/infix-eval/InfixEvaluator",
+                             "InfixEvaluator result differs from the tree's function on an explicit "
+                             "infix encoding of it",
+                             jb);
+                        return false;
+                    }
+                    rep.observe("infix:evaluated");
+                }
+                else
+                    rep.observe("infix:not-representable");
+            }
+
+            //---- construction-time SenseEvaluator (n <= 3, surfaces 0..n-1 = x,y,z planes)
+            if (as.n <= 3 && as.exhaustive && !sids_sorted.empty()
+                && sids_sorted.back() == unsigned(as.n - 1))
+            {
+                std::vector<VariantSurface> surfs = {PlaneX{0.0}, PlaneY{0.0}, PlaneZ{0.0}};
+                int bad_j = -1;
+                ok = guarded(stage + "/sense-eval", [&] {
+                    for (int a = 0; a < (1 << as.n); ++a)
+                    {
+                        Real3 pos{1, 1, 1};
+                        for (int k = 0; k < as.n; ++k)
+                            pos[as.sid[k]] = tt_bit(as.col[k], a) ? 1.0 : -1.0;
+                        oid::SenseEvaluator se(t, surfs, pos);
+                        bool got = (se(node) == SignedSense::inside);
+                        if (got != tt_bit(tree_value, a))
+                        {
+                            bad_j = a;
+                            break;
+                        }
+                    }
+                });
+                if (!ok)
+                    return false;
+                if (bad_j >= 0)
+                {
+                    json jb = base;
+                    jb["assignment"] = as.describe(bad_j);
+                    fail("C10/sense-eval/SenseEvaluator",
+                         "SenseEvaluator disagrees with the tree's function", jb);
+                    return false;
+                }
+            }
+        }
+        return true;
+    }
+
+    std::vector<Target> volume_targets(CsgTree const& t) const
+    {
+        std::vector<Target> r;
+        for (std::size_t i = 0; i < t.volumes().size(); ++i)
+            r.push_back({t.volumes()[i], orig[tree.volumes()[i].unchecked_get()]});
+        return r;
+    }
+
+    // Is a Negated node whose operand is an Aliased node resolving to a Joined node
+    // reachable from `root`?
+    static bool reaches_negated_alias_of_join(CsgTree const& t, NodeId root)
+    {
+        std::vector<char> seen(t.size(), 0);
+        std::vector<NodeId> todo{root};
+        while (!todo.empty())
+        {
+            NodeId n = todo.back();
+            todo.pop_back();
+            if (!(n < t.size()) || seen[n.unchecked_get()])
+                continue;
+            seen[n.unchecked_get()] = 1;
+            Node const& node = t[n];
+            if (auto* a = std::get_if<Aliased>(&node))
+                todo.push_back(a->node);
+            else if (auto* j = std::get_if<Joined>(&node))
+                for (auto d : j->nodes)
+                    todo.push_back(d);
+            else if (auto* ng = std::get_if<Negated>(&node))
+            {
+                todo.push_back(ng->node);
+                if (ng->node < t.size() && std::holds_alternative<Aliased>(t[ng->node]))
+                {
+                    NodeId d = ng->node;
+                    int guard = 0;
+                    while (d < t.size() && std::holds_alternative<Aliased>(t[d]) && ++guard < 1000)
+                        d = std::get<Aliased>(t[d]).node;
+                    if (d < t.size() && std::holds_alternative<Joined>(t[d]))
+                        return true;
+                }
+            }
+        }
+        return false;
+    }
+
+    static bool demorgan_precondition(CsgTree const& t)
+    {
+        // "The CsgTree being simplified shouldn't contain alias nodes or double negations."
+        for (std::size_t i = 2; i < t.size(); ++i)
+        {
+            Node const& n = t[NodeId(i)];
+            if (std::holds_alternative<Aliased>(n))
+                return false;
+            if (auto* ng = std::get_if<Negated>(&n))
+                if (std::holds_alternative<Negated>(t[ng->node]))
+                    return false;
+        }
+        return true;
+    }
+
+    //-----------------------------------------------------------------------//
+    void stage_raw()
+    {
+        context = "raw inserted tree";
+        if (!check_encodings(tree, "raw", volume_targets(tree), all_mask))
+            return;
+        done("encode-raw");
+    }
+
+    //-----------------------------------------------------------------------//
+    // Exchange nodes with logically equivalent ones (found with the model), then simplify
+    void stage_exchange(CsgTree& t2)
+    {
+        std::size_t n = tree.size();
+        if (n <= 2)
+            return;
+        int n_ex = int(plan.integer(1, 3));
+        std::string kinds;
+        NodeId min_x;
+        for (int e = 0; e < n_ex && !stop; ++e)
+        {
+            NodeId x(plan.integer(2, long(n) - 1));
+            TT const& f = orig[x.unchecked_get()];
+            Node repl;
+            std::string rk;
+            for (int attempt = 0; attempt < 24 && rk.empty(); ++attempt)
+            {
+                int c = int(plan.integer(0, 6));
+                auto lower = [&]() { return NodeId(plan.integer(0, long(x.unchecked_get()) - 1)); };
+                if (c == 0)
+                {
+                    if (tt_all(f))
+                        repl = True{}, rk = "true";
+                    else if (!tt_any(f))
+                        repl = False{}, rk = "false";
+                }
+                else if (c == 1)
+                {
+                    NodeId y = lower();
+                    if (tt_eq(tt_not(orig[y.unchecked_get()]), f))
+                        repl = Negated{y}, rk = "negated";
+                }
+                else if (c == 2)
+                {
+                    NodeId y = lower();
+                    if (tt_eq(orig[y.unchecked_get()], f))
+                    {
+                        if (plan.coin())
+                            repl = Aliased{y}, rk = "aliased";
+                        else
+                            repl = Joined{plan.coin() ? op_and : op_or, {y}}, rk = "join1";
+                    }
+                }
+                else if (c == 3 || c == 4)
+                {
+                    // a different join of lower nodes with the same value: accumulate
+                    // supersets (and) / subsets (or) of f in random order until f is reached
+                    bool is_and = plan.coin();
+                    std::vector<NodeId> cands;
+                    for (unsigned y = 0; y < x.unchecked_get(); ++y)
+                    {
+                        TT m = orig[y];
+                        if (is_and)
+                            tt_and_eq(m, f);
+                        else
+                            tt_or_eq(m, f);
+                        if (tt_eq(m, f))  // f implies y (and) / y implies f (or)
+                            cands.push_back(NodeId(y));
+                    }
+                    std::shuffle(cands.begin(), cands.end(), plan);
+                    std::vector<NodeId> ch;
+                    TT acc = tt_fill(is_and);
+                    for (NodeId y : cands)
+                    {
+                        TT nacc = acc;
+                        if (is_and)
+                            tt_and_eq(nacc, orig[y.unchecked_get()]);
+                        else
+                            tt_or_eq(nacc, orig[y.unchecked_get()]);
+                        if (!tt_eq(nacc, acc) || plan.coin(0.15))
+                        {
+                            ch.push_back(y);
+                            acc = nacc;
+                        }
+                        if (tt_eq(acc, f) && plan.coin(0.7))
+                            break;
+                    }
+                    if (tt_eq(acc, f) && !ch.empty())
+                        repl = Joined{is_and ? op_and : op_or, ch}, rk = is_and ? "and" : "or";
+                }
+                else
+                {
+                    // its own definition, re-ordered, with duplicates and the identity element
+                    if (auto* j = std::get_if<Joined>(&t2[x]))
+                    {
+                        Joined nj = *j;
+                        nj.nodes.push_back(nj.nodes[plan.integer(0, long(nj.nodes.size()) - 1)]);
+                        if (plan.coin())
+                            nj.nodes.push_back(nj.op == op_and ? CsgTree::true_node_id()
+                                                               : CsgTree::false_node_id());
+                        std::reverse(nj.nodes.begin(), nj.nodes.end());
+                        repl = std::move(nj);
+                        rk = "self-join";
+                    }
+                    else if (auto* ng = std::get_if<Negated>(&t2[x]))
+                    {
+                        repl = Negated{ng->node};
+                        rk = "self-negated";
+                    }
+                }
+            }
+            if (rk.empty())
+                continue;
+            history.push_back("exchange(" + std::to_string(x.unchecked_get()) + ", " + to_string(repl)
+                              + ")");
+            if (!guarded("exchange", [&] { t2.exchange(x, std::move(repl)); }))
+                return;
+            history.push_back("-> " + tree_str(t2));
+            if (!check_nodes(t2, all_mask, "C10/exchange/" + rk,
+                             "CsgTree::exchange with a logically equivalent node",
+                             {{"exchanged_node", x.unchecked_get()}, {"replacement_kind", rk}}))
+                return;
+            if (kinds.find(rk) == std::string::npos)
+                kinds += (kinds.empty() ? "" : "+") + rk;
+            if (!min_x || x < min_x)
+                min_x = x;
+        }
+        if (stop)
+            return;
+        int fn = int(plan.integer(0, 3));
+        char const* fname = fn == 0   ? "simplify"
+                            : fn == 1 ? "simplify-from-min"
+                            : fn == 2 ? "simplify_up"
+                                      : "CsgTree::simplify";
+        if (fn == 1 && !min_x)
+            fn = 0, fname = "simplify";
+        bool ok = guarded(fname, [&] {
+            if (fn == 0)
+                orangeinp::simplify(&t2, NodeId{2});
+            else if (fn == 1)
+                orangeinp::simplify(&t2, min_x);
+            else if (fn == 2)
+                simplify_up(&t2, NodeId(plan.integer(2, long(n) - 1)));
+            else
+                for (int i = 0, m = int(plan.integer(1, 8)); i < m; ++i)
+                    t2.simplify(NodeId(plan.integer(2, long(n) - 1)));
+        });
+        if (!ok)
+            return;
+        history.push_back(std::string(fname) + " -> " + tree_str(t2));
+        if (!check_nodes(t2, all_mask, std::string("C10/simplify/") + fname,
+                         std::string(fname) + " after equivalent exchanges", {{"exchanges", kinds}}))
+            return;
+        context = std::string("exchanges [") + kinds + "] then " + fname;
+        if (!check_encodings(t2, "simplified", volume_targets(t2), all_mask))
+            return;
+        done(std::string("exchange-simplify/") + fname + "/" + (kinds.empty() ? "none" : kinds),
+             !kinds.empty());
+    }
+
+    //-----------------------------------------------------------------------//
+    void one_replacement(CsgTree const& src, char const* src_name, NodeId k, bool b)
+    {
+        CsgTree t3 = src;
+        TT mask = b ? orig[k.unchecked_get()] : tt_not(orig[k.unchecked_get()]);
+        std::string kk = kind_of(src[k]);
+        std::vector<NodeId> unknown;
+        bool rejected = false;
+        bool ok = guarded(
+            "replace_and_simplify",
+            [&] { unknown = replace_and_simplify(&t3, k, b ? Node{True{}} : Node{False{}}); },
+            &rejected);
+        if (!ok)
+        {
+            stop = false;  // a refusal ends this replacement only
+            if (rejected)
+                rep.observe(tt_any(mask) ? "replace:refused-satisfiable"
+                                         : "replace:refused-unsatisfiable");
+            return;
+        }
+        json info = {{"replaced_node", k.unchecked_get()}, {"replaced_kind", kk},
+                     {"constant", b}, {"source", src_name}, {"source_tree", tree_str(src)}};
+        if (!check_nodes(t3, mask, std::string("C10/replace/") + (b ? "true" : "false") + "/" + kk,
+                         "replace_and_simplify (assignments consistent with the constant)", info))
+            return;
+        for (NodeId u : unknown)
+            rep.observe(u < t3.size() && std::holds_alternative<Surface>(t3[u])
+                            ? "replace:unknown-surface-returned"
+                            : "replace:unknown-nonsurface-returned");
+        context = std::string("replace_and_simplify on ") + src_name + " tree";
+        if (!check_encodings(t3, "replaced", volume_targets(t3), mask))
+            return;
+        if (!tt_any(mask))
+        {
+            rep.held_trivial();  // no consistent assignment: nothing compared
+            return;
+        }
+        done(std::string("replace=") + (b ? "T" : "F") + "/K=" + kk + "/" + src_name);
+        // DeMorgan on a replaced tree when it satisfies the precondition
+        if (demorgan_precondition(t3) && plan.coin(0.5))
+            stage_demorgan(t3, "replaced", mask);
+    }
+
+    void stage_replace(CsgTree const& src, char const* src_name)
+    {
+        std::size_t n = src.size();
+        if (n <= 2)
+            return;
+        if (cd.all_replacements)
+        {
+            for (std::size_t k = 2; k < n && !stop; ++k)
+                for (int b = 0; b < 2 && !stop; ++b)
+                    one_replacement(src, src_name, NodeId(k), b != 0);
+            return;
+        }
+        int reps = plan.coin(0.3) ? 2 : 1;
+        for (int r = 0; r < reps && !stop; ++r)
+        {
+            NodeId k;
+            if (plan.coin(0.4) && !src.volumes().empty())
+                k = src.volumes()[plan.integer(0, long(src.volumes().size()) - 1)];
+            else
+                k = NodeId(plan.integer(2, long(n) - 1));
+            if (k.unchecked_get() < 2)
+                continue;
+            one_replacement(src, src_name, k, plan.coin());
+        }
+    }
+
+    //-----------------------------------------------------------------------//
+    void stage_demorgan(CsgTree const& src, char const* src_name, TT const& mask)
+    {
+        bool had_negjoin = false;
+        for (std::size_t i = 2; i < src.size(); ++i)
+            if (auto* ng = std::get_if<Negated>(&src[NodeId(i)]))
+                if (std::holds_alternative<Joined>(src[ng->node]))
+                    had_negjoin = true;
+        CsgTree t4;
+        if (!guarded("transform_negated_joins", [&] { t4 = transform_negated_joins(src); }))
+            return;
+        json info = {{"source", src_name}, {"source_tree", tree_str(src)}, {"tree", tree_str(t4)}};
+        if (t4.volumes().size() != src.volumes().size())
+        {
+            fail("C10/demorgan/volume-count", "transform_negated_joins changed the number of volumes",
+                 info);
+            return;
+        }
+        TreeEval ev(t4, as);
+        std::vector<Target> targets;
+        for (std::size_t i = 0; i < t4.volumes().size(); ++i)
+        {
+            TT const& expect = orig[tree.volumes()[i].unchecked_get()];
+            TT const& got = ev(t4.volumes()[i]);
+            if (ev.broken())
+            {
+                fail(std::string("C10/demorgan/") + ev.why(), "simplified tree is not evaluable",
+                     info);
+                return;
+            }
+            int j = tt_first_diff(got, expect, mask);
+            if (j >= 0)
+            {
+                info["volume_index"] = i;
+                info["assignment"] = as.describe(j);
+                info["original_value"] = tt_bit(expect, j);
+                info["rewritten_value"] = tt_bit(got, j);
+                fail("C10/demorgan/volume-value",
+                     "transform_negated_joins changed the function of a volume", info);
+                return;
+            }
+            targets.push_back({t4.volumes()[i], expect});
+        }
+        // negated joins reachable from the volumes would make the tree unusable for the infix
+        // evaluator; recorded, not judged (C10 is about truth values)
+        bool remains = false;
+        for (std::size_t i = 2; i < t4.size(); ++i)
+            if (auto* ng = std::get_if<Negated>(&t4[NodeId(i)]))
+                if (std::holds_alternative<Joined>(t4[ng->node]))
+                    remains = true;
+        rep.observe(remains ? "demorgan:negated-join-remains" : "demorgan:no-negated-join-left");
+        context = std::string("transform_negated_joins on ") + src_name + " tree";
+        if (!check_encodings(t4, "demorgan", targets, mask))
+            return;
+        done(std::string("demorgan/") + src_name + "/negjoin" + (had_negjoin ? "1" : "0"));
+    }
+
+    //-----------------------------------------------------------------------//
+    void run()
+    {
+        if (!build())
+            return;
+        done("insert");
+        stage_raw();
+        if (stop)
+            return;
+        if (demorgan_precondition(tree))
+            stage_demorgan(tree, "raw", all_mask);
+        if (stop)
+            return;
+        CsgTree t2 = tree;
+        stage_exchange(t2);
+        if (stop)
+            return;
+        if (demorgan_precondition(t2) && plan.coin(0.5))
+            stage_demorgan(t2, "simplified", all_mask);
+        if (stop)
+            return;
+        stage_replace(tree, "raw");
+        if (stop)
+            return;
+        if (!cd.all_replacements || plan.coin(0.25))
+            stage_replace(t2, "simplified");
+        if (rep.want_sample(6) && !trivial_case)
+        {
+            json s = {{"workload", cd.workload}, {"index", cd.index}, {"raw_tree", tree_str(tree)},
+                      {"n_surfaces", as.n}, {"assignments", as.A},
+                      {"volume0_infix", build_infix_string(tree, tree.volumes().front())}};
+            auto res = oid::PostfixLogicBuilder{tree}(tree.volumes().front());
+            s["volume0_postfix"] = logic_str(res.second);
+            rep.sample(std::move(s), 6);
+        }
+    }
+};
+
+//---------------------------------------------------------------------------//
+// (a) exhaustive enumeration of expression trees
+struct Enumerator
+{
+    int n_surf;  // leaves are steps 2 .. 2+n_surf-1 (+ constants 0,1 if with_const)
+    bool with_const;
+    std::vector<Step>& steps;
+
+    using Fn = std::function<void(int)>;
+
+    void leaves(Fn const& f) const
+    {
+        for (int l = with_const ? 0 : 2; l < 2 + n_surf; ++l)
+            f(l);
+    }
+    // all expressions with exactly k internal nodes; binary joins (+ ternary if tern)
+    void expr(int k, bool tern, Fn const& f)
+    {
+        if (k == 0)
+        {
+            leaves(f);
+            return;
+        }
+        expr(k - 1, tern, [&](int c) {
+            steps.push_back({'N', 0, {c}});
+            f(int(steps.size()) - 1);
+            steps.pop_back();
+        });
+        for (char op : {'A', 'O'})
+        {
+            for (int i = 0; i <= k - 1; ++i)
+                expr(i, tern, [&](int a) {
+                    expr(k - 1 - i, tern, [&](int b) {
+                        steps.push_back({op, 0, {a, b}});
+                        f(int(steps.size()) - 1);
+                        steps.pop_back();
+                    });
+                });
+            if (!tern)
+                continue;
+            for (int i = 0; i <= k - 1; ++i)
+                for (int j = 0; i + j <= k - 1; ++j)
+                    expr(i, false, [&](int a) {
+                        expr(j, false, [&](int b) {
+                            expr(k - 1 - i - j, false, [&](int c) {
+                                steps.push_back({op, 0, {a, b, c}});
+                                f(int(steps.size()) - 1);
+                                steps.pop_back();
+                            });
+                        });
+                    });
+        }
+    }
+};
+
+void classify_features(CaseDef& cd)
+{
+    // duplicates / complementary operands as generated (before the tree's own dedup)
+    for (auto const& s : cd.steps)
+    {
+        if (s.kind != 'A' && s.kind != 'O')
+            continue;
+        for (std::size_t i = 0; i < s.args.size(); ++i)
+            for (std::size_t j = i + 1; j < s.args.size(); ++j)
+            {
+                int a = s.args[i], b = s.args[j];
+                if (a == b)
+                    cd.feat_dup = true;
+                auto is_not_of = [&](int x, int y) {
+                    return cd.steps[x].kind == 'N' && cd.steps[x].args[0] == y;
+                };
+                if (is_not_of(a, b) || is_not_of(b, a) || (a + b == 1 && a * b == 0))
+                    cd.feat_compl = true;
+            }
+    }
+}
+
+void run_exhaustive(verif::Report& rep, verif::Args const& args, long only_index, u64 stride = 1,
+                    u64 phase = 0)
+{
+    u64 counter = 0;
+    auto run_family = [&](int k, bool with_const, bool tern, char const* name) {
+        CaseDef cd;
+        cd.workload = name;
+        cd.sids = {0, 1, 2};
+        cd.steps = {{'T', 0, {}}, {'F', 0, {}}, {'S', 0, {}}, {'S', 1, {}}, {'S', 2, {}}};
+        cd.all_replacements = true;
+        cd.tier = args.tier;
+        Enumerator en{3, with_const, cd.steps};
+        en.expr(k, tern, [&](int root) {
+            u64 idx = counter++;
+            if (only_index >= 0 ? long(idx) != only_index : idx % stride != phase)
+                return;
+            cd.index = idx;
+            cd.seed = 0;
+            cd.plan_seed = verif::mix_seed(0xC10, idx);
+            cd.volumes = {root};
+            // one internal sub-expression as a second volume
+            for (int s = 5; s < root; ++s)
+                if (cd.steps[s].kind != 'S')
+                {
+                    cd.volumes.push_back(s);
+                    break;
+                }
+            cd.feat_dup = cd.feat_compl = false;
+            classify_features(cd);
+            Runner r(rep, cd);
+            r.run();
+        });
+    };
+    bool th = args.thorough();
+    // binary/unary trees, leaves = 3 surfaces and both constants, up to 3 internal nodes
+    for (int k = 0; k <= 3; ++k)
+        run_family(k, true, false, "exhaustive");
+    // 4 internal nodes: surfaces as leaves (quick) / also constants (thorough)
+    run_family(4, th, false, "exhaustive");
+    // trees containing ternary joins, up to 3 internal nodes
+    for (int k = 1; k <= 3; ++k)
+        run_family(k, th || k < 3, true, "exhaustive");
+    rep.note("exhaustive_cases", counter);
+}
+
+//---------------------------------------------------------------------------//
+// (b) random DAGs
+CaseDef gen_random(u64 seed, u64 index)
+{
+    verif::Rng rng(verif::mix_seed(seed, index));
+    CaseDef cd;
+    cd.workload = "random";
+    cd.seed = seed;
+    cd.index = index;
+    cd.plan_seed = verif::mix_seed(seed ^ 0x5eedull, index);
+
+    double r = rng.uniform();
+    int n = r < 0.55   ? int(rng.integer(1, 5))
+            : r < 0.85 ? int(rng.integer(6, 8))
+            : r < 0.95 ? int(rng.integer(9, 10))
+            : r < 0.98 ? int(rng.integer(11, 12))
+                       : int(rng.integer(13, 20));
+    // surface ids: dense 0..n-1, sparse, or large
+    int idmode = int(rng.integer(0, 3));
+    std::vector<unsigned> pool;
+    if (idmode == 0)
+        for (int i = 0; i < n; ++i)
+            pool.push_back(unsigned(i));
+    else
+    {
+        unsigned base = idmode == 3 ? unsigned(rng.integer(1000, 100000)) : 0u;
+        std::vector<unsigned> all;
+        for (int i = 0; i < 4 * n; ++i)
+            all.push_back(base + unsigned(i));
+        std::shuffle(all.begin(), all.end(), rng);
+        pool.assign(all.begin(), all.begin() + n);
+    }
+    std::shuffle(pool.begin(), pool.end(), rng);
+    cd.sids = pool;
+    std::size_t next_surf = 0;
+
+    int target = std::min(62, 2 + n + int(rng.integer(1, rng.coin(0.3) ? 55 : 20)));
+    cd.steps = {{'T', 0, {}}, {'F', 0, {}}};
+    auto pick = [&]() -> int {
+        int ns = int(cd.steps.size());
+        if (ns <= 2 || rng.coin(0.03))
+            return int(rng.integer(0, 1));
+        if (rng.coin(0.5))
+            return int(rng.integer(std::max(2, ns - 4), ns - 1));
+        return int(rng.integer(2, ns - 1));
+    };
+    auto add = [&](Step s) {
+        cd.steps.push_back(std::move(s));
+        return int(cd.steps.size()) - 1;
+    };
+    auto add_join = [&](int force_child) {
+        char op = rng.coin() ? 'A' : 'O';
+        double q = rng.uniform();
+        int k = q < 0.02 ? 0 : q < 0.06 ? 1 : q < 0.46 ? 2 : q < 0.72 ? 3 : q < 0.86 ? 4
+                                                                                       : int(rng.integer(5, 8));
+        std::vector<int> ch;
+        if (force_child >= 0)
+            ch.push_back(force_child);
+        while (int(ch.size()) < k)
+            ch.push_back(pick());
+        if (!ch.empty() && rng.coin(0.2))
+            ch.push_back(ch[rng.integer(0, long(ch.size()) - 1)]);  // duplicate
+        if (!ch.empty() && rng.coin(0.2))
+        {
+            int c = ch[rng.integer(0, long(ch.size()) - 1)];  // complementary pair
+            ch.push_back(add({'N', 0, {c}}));
+        }
+        if (rng.coin(0.05))
+            ch.push_back(int(rng.integer(0, 1)));
+        std::shuffle(ch.begin(), ch.end(), rng);
+        return add({op, 0, ch});
+    };
+    while (int(cd.steps.size()) < target)
+    {
+        bool have_operand = cd.steps.size() > 2;
+        if (next_surf < cd.sids.size() && (!have_operand || rng.coin(0.35)))
+        {
+            add({'S', cd.sids[next_surf++], {}});
+            continue;
+        }
+        double a = rng.uniform();
+        if (a < 0.22)
+            add({'N', 0, {pick()}});
+        else if (a < 0.88)
+            add_join(-1);
+        else
+        {
+            // negation chain: not(join(not(join(...))))
+            int cur = pick();
+            for (int lv = 0, m = int(rng.integer(2, 6)); lv < m; ++lv)
+            {
+                cur = add_join(cur);
+                cur = add({'N', 0, {cur}});
+            }
+        }
+    }
+    // make sure all surfaces exist in the tree
+    while (next_surf < cd.sids.size())
+        add({'S', cd.sids[next_surf++], {}});
+    // volumes: last internal step + a few others
+    int ns = int(cd.steps.size());
+    int last = ns - 1;
+    while (last > 2 && cd.steps[last].kind == 'S')
+        --last;
+    cd.volumes.push_back(last);
+    for (int i = 0, m = int(rng.integer(0, 3)); i < m; ++i)
+        cd.volumes.push_back(int(rng.integer(2, ns - 1)));
+    classify_features(cd);
+    return cd;
+}
+
+//---------------------------------------------------------------------------//
+// (c) logic depth: right-nested combs whose postfix needs a deep stack.  Construction of
+// the run-time data must refuse logic that the 32-entry LogicStack cannot hold.
+void run_depth_case(verif::Report& rep, u64 seed, u64 index)
+{
+    verif::Rng rng(verif::mix_seed(seed ^ 0xdeefull, index));
+    int n = int(rng.integer(2, 3));
+    int levels = int(rng.integer(24, 40));
+    CaseDef cd;
+    cd.workload = "depth";
+    cd.seed = seed;
+    cd.index = index;
+    cd.plan_seed = verif::mix_seed(seed, index);
+    for (int i = 0; i < n; ++i)
+        cd.sids.push_back(unsigned(i));
+    cd.steps = {{'T', 0, {}}, {'F', 0, {}}};
+    for (int i = 0; i < n; ++i)
+        cd.steps.push_back({'S', unsigned(i), {}});
+    // negated literals first so that they have low node ids (children are sorted by id)
+    std::vector<int> lits;
+    for (int i = 0; i < n; ++i)
+    {
+        lits.push_back(2 + i);
+        cd.steps.push_back({'N', 0, {2 + i}});
+        lits.push_back(int(cd.steps.size()) - 1);
+    }
+    int cur = lits[rng.integer(0, long(lits.size()) - 1)];
+    char op = rng.coin() ? 'A' : 'O';
+    for (int l = 0; l < levels; ++l)
+    {
+        int lit = lits[rng.integer(0, long(lits.size()) - 1)];
+        cd.steps.push_back({op, 0, {lit, cur}});
+        cur = int(cd.steps.size()) - 1;
+        op = (op == 'A') ? 'O' : 'A';
+    }
+    cd.volumes = {cur};
+    Runner r(rep, cd);
+    if (!r.build())
+        return;
+    NodeId root = r.tree.volumes().front();
+    oid::PostfixLogicBuilder::result_type res;
+    if (!r.guarded("depth/postfix-build", [&] { res = oid::PostfixLogicBuilder{r.tree}(root); }))
+        return;
+    std::vector<TT const*> face_col;
+    for (auto f : res.first)
+        face_col.push_back(&r.as.col[r.as.index_of(f.unchecked_get())]);
+    PostfixResult pr = interpret_postfix(res.second, face_col);
+    if (!pr.well_formed || tt_first_diff(pr.value, r.tt[cur], r.all_mask) >= 0)
+    {
+        r.fail("C10/postfix-build/nomap", "deep comb: postfix logic differs from the function",
+               {{"logic", logic_str(res.second)}, {"tree", tree_str(r.tree)}});
+        return;
+    }
+    int const cap = int(rt::LogicStack::max_stack_depth());
+    // Hand the logic to the production run-time constructor
+    UnitInput unit;
+    unit.label = "depth";
+    unit.bbox = BBox{{-10, -10, -10}, {10, 10, 10}};
+    unit.surfaces = {PlaneX{0.5}, PlaneY{0.25}, PlaneZ{-0.5}};
+    unit.surfaces.erase(unit.surfaces.begin() + n, unit.surfaces.end());
+    for (int i = 0; i < n; ++i)
+        unit.surface_labels.push_back(Label("s" + std::to_string(i)));
+    VolumeInput vi;
+    vi.label = "comb";
+    vi.faces = res.first;
+    vi.logic = res.second;
+    vi.bbox = BBox::from_infinite();
+    vi.zorder = ZOrder::media;
+    vi.flags = static_cast<logic_int>(VolumeInput::Flags::internal_surfaces);
+    unit.volumes.push_back(vi);
+    OrangeInput inp;
+    inp.universes.push_back(std::move(unit));
+    inp.tol = Tolerance<>::from_default();
+    bool accepted = false, refused = false;
+    try
+    {
+        OrangeParams params(std::move(inp));
+        accepted = true;
+    }
+    catch (RuntimeError const&)
+    {
+        refused = true;
+    }
+    catch (DebugError const& e)
+    {
+        rep.inconclusive("debug-assert: " + verif::describe(e));
+        rep.observe("assert:" + verif::describe(e));
+        return;
+    }
+    rep.observe_max("depth:max_needed", pr.max_depth);
+    if (accepted && pr.max_depth > cap)
+    {
+        r.fail("C10/depth/accepted-overflow",
+               "OrangeParams accepted a volume whose postfix logic needs more stack entries than "
+               "LogicStack::max_stack_depth()",
+               {{"needed_depth", pr.max_depth}, {"capacity", cap}, {"logic", logic_str(res.second)}});
+        return;
+    }
+    if (refused)
+    {
+        // documented refusal (max_logic_depth < max_stack_depth): rejected input
+        rep.observe(pr.max_depth > cap ? "depth:refused-overflowing" : "depth:refused-conservative");
+        if (pr.max_depth > cap)
+            rep.held("depth/refused/needed>" + std::to_string(cap));
+        else
+            rep.inconclusive("rejected input: logic depth refused although it fits the stack");
+        return;
+    }
+    // accepted and fits: the real evaluator must agree on every assignment
+    bool ok = true;
+    int bad = -1;
+    r.guarded("depth/logic-eval", [&] {
+        rt::LogicEvaluator eval(
+            Span<logic_int const>{res.second.data(), res.second.size()});
+        std::vector<Sense> senses(res.first.size());
+        for (int a = 0; a < r.as.A && ok; ++a)
+        {
+            for (std::size_t k = 0; k < senses.size(); ++k)
+                senses[k] = to_sense(tt_bit(*face_col[k], a));
+            if (eval(Span<Sense const>{senses.data(), senses.size()}) != tt_bit(pr.value, a))
+            {
+                ok = false;
+                bad = a;
+            }
+        }
+    });
+    if (r.stop)
+        return;
+    if (!ok)
+    {
+        r.fail("C10/logic-eval/LogicEvaluator", "deep comb: LogicEvaluator differs from reference",
+               {{"needed_depth", pr.max_depth}, {"assignment", r.as.describe(bad)},
+                {"logic", logic_str(res.second)}});
+        return;
+    }
+    rep.held("depth/accepted/needed=" + std::to_string(depth_bucket(pr.max_depth)));
+}
+
+}  // namespace
+
+//---------------------------------------------------------------------------//
+int main(int argc, char** argv)
+{
+    verif::Args args = verif::parse_args(argc, argv);
+    if (args.property.empty())
+        args.property = "C10";
+    if (args.property != "C10")
+    {
+        std::cerr << "csg_engine serves C10 only\n";
+        return 2;
+    }
+    verif::Report rep("C10", "csg", args);
+    rep.set_rule(
+        "A case is one generated boolean expression DAG over n surfaces, built simultaneously in "
+        "the real CsgTree and in a truth-table model (one bit per sense assignment: all 2^n for "
+        "n<=12, 4096 sampled for 13<=n<=20). Each evaluation is one (case, rewrite stage): insert "
+        "(insert-time simplification/dedup), encode-raw, exchange+simplify (equivalent exchanges "
+        "found with the model, then simplify/simplify_up/CsgTree::simplify), replace "
+        "(replace_and_simplify of a node by a constant, compared only on assignments where the "
+        "original node equals the constant), demorgan (transform_negated_joins), depth (deep "
+        "combs through OrangeParams). In every stage all node ids / volumes are re-evaluated by an "
+        "own recursive evaluator and each volume is encoded with PostfixLogicBuilder (no remap, "
+        "remap), evaluated with LogicEvaluator on every assignment, printed with "
+        "InfixStringBuilder and re-parsed, flagged by InternalSurfaceFlagger (simple => flipping "
+        "any one face of an inside assignment leaves), and where representable evaluated with "
+        "InfixEvaluator. A cell is (stage detail x node type of the first volume root x "
+        "{duplicate, complementary, shared} operands x depth bucket). Non-trivial: some volume "
+        "root is a join or a negation.");
+    rep.assume("Surface senses are independent booleans (the property quantifies over all truth "
+               "assignments); Sense::outside == true is the positive literal.");
+    rep.assume("DeMorganSimplifier is only given trees without alias nodes or double negations "
+               "(its documented precondition).");
+    rep.assume("No production builder for the explicit infix token encoding exists at this commit: "
+               "InfixEvaluator is driven with a harness translation following the format documented "
+               "in InfixEvaluator.hh (one operator per parenthesised group, lnot only before a face).");
+
+    u64 const nshards = std::max<u64>(1, std::strtoull(args.get("nshards", "1").c_str(), nullptr, 10));
+    u64 const shard = std::strtoull(args.get("shard", "0").c_str(), nullptr, 10) % nshards;
+
+    if (!args.replay.empty())
+    {
+        std::ifstream f(args.replay);
+        json j = json::parse(f, nullptr, false);
+        if (j.is_discarded() || !j.contains("witnesses") || j["witnesses"].empty())
+        {
+            std::cerr << "cannot read replay file\n";
+            return 2;
+        }
+        json c = j["witnesses"][0]["case"];
+        std::string wl = c.value("workload", "random");
+        u64 seed = c.value("seed", u64(1)), index = c.value("index", u64(0));
+        if (wl == "random")
+        {
+            CaseDef cd = gen_random(seed, index);
+            Runner r(rep, cd);
+            r.run();
+        }
+        else if (wl == "depth")
+            run_depth_case(rep, seed, index);
+        else
+        {
+            // the enumeration order depends on the tier the witness was produced with
+            verif::Args a2 = args;
+            a2.tier = c.value("tier", args.tier);
+            run_exhaustive(rep, a2, long(index));
+        }
+        return rep.finish();
+    }
+
+    // (a) exhaustive small trees.  The enumeration is not seed dependent: it is split over
+    // the shards by case index; sanitizer replicas (scale < 1) run every (1/scale)-th case.
+    {
+        u64 sub = args.scale >= 0.999 ? 1 : std::max<u64>(1, u64(1.0 / args.scale + 0.5));
+        u64 stride = sub * nshards;
+        run_exhaustive(rep, args, -1, stride, (args.seed % sub) * nshards + shard);
+        if (sub == 1)
+            rep.set_exhaustive(
+                std::string("(split over the shards of this run) all expression trees with <= 4 "
+                            "internal nodes (not, binary and/or) over 3 surfaces")
+                + (args.thorough() ? " and the constants" : " (constants as leaves up to 3 internal nodes)")
+                + ", plus all trees with <= 3 internal nodes containing ternary joins; every one "
+                  "of the 8 sense assignments; every (node, constant) replacement");
+    }
+
+    // (b) random DAGs
+    // budgets are totals over the shards of a run
+    u64 n_random = std::max<u64>(1, args.budget(20000, 5000000) / nshards);
+    for (u64 i = 0; i < n_random; ++i)
+    {
+        CaseDef cd = gen_random(args.seed, i);
+        Runner r(rep, cd);
+        r.run();
+    }
+
+    // (c) logic depth through the run-time constructor
+    u64 n_depth = std::max<u64>(1, args.budget(160, 3200) / nshards);
+    for (u64 i = 0; i < n_depth; ++i)
+        run_depth_case(rep, args.seed, i);
+
+    return rep.finish();
+}
